@@ -7,19 +7,19 @@ import XsdataModel.Proofs.C01NTypes
 namespace Proofs.C01
 open Py Xs.Bind Xs.Bind.F1 Xs.Bind.FN
 
-theorem treeNN_obj (Γ : Ctx) (cfg : SerCfg) (M : NsMap) (n : Nat) (pns : Option Str) (nl : Bool)
+theorem treeNN_obj (Γ : Ctx) (cfg : SerCfg) (M : NsMap) (n : Nat) (pns : Option Str)
     (xt : Option QN)
     (q : QN) (c : ClassId) (fields : List (Str × Val)) {m : XmlMeta} (hm : metaOf Γ c pns = some m) :
-    treeNN Γ cfg M (n + 1) pns nl xt q (.obj c fields) =
+    treeNN Γ cfg M (n + 1) pns xt q (.obj c fields) =
       match m.text with
       | some tv =>
         .node q (if textHasData (look fields tv.name) then attrPairsT cfg M m.attributeVars fields xt
-                 else attrPairsT cfg M m.attributeVars fields xt ++ nilAttr (nl || m.nillable)) M
+                 else attrPairsT cfg M m.attributeVars fields xt ++ nilAttr m.nillable) M
           (textTextN (look fields tv.name)) [] none
       | none =>
         .node q
           (if (kidsN M (itemRec Γ cfg M n (targetUri m.qname)) m fields).isEmpty
-           then attrPairsT cfg M m.attributeVars fields xt ++ nilAttr (nl || m.nillable)
+           then attrPairsT cfg M m.attributeVars fields xt ++ nilAttr m.nillable
            else attrPairsT cfg M m.attributeVars fields xt) M none
           (kidsN M (itemRec Γ cfg M n (targetUri m.qname)) m fields) none := by
   simp only [treeNN, hm]
@@ -47,16 +47,16 @@ theorem mapM_ok_mem {α β : Type} (f : α → Except Err β) :
         · obtain ⟨b', hb', hm⟩ := ih bs hxs a ha'
           exact ⟨b', hb', by simp [hm]⟩
 
-theorem item_evs_mem_body (e : BEnv) (Γ : Ctx) (cfg : SerCfg) {m : XmlMeta} (ns : Option Str)
+theorem item_evs_mem_body (e : BEnv) (Γ : Ctx) (cfg : SerCfg) (ns : Option Str)
     (chunks : List (XmlVar × Val)) (f : Nat) {body : List (List Ev)}
     (hb : chunks.mapM (genField e Γ cfg (f + 1) ns) = .ok body)
-    {c : XmlVar × Val} (hc : c ∈ chunks) (hf : ElemFactsN m c.1) (hs : Shape c.1 c.2)
+    {c : XmlVar × Val} (hc : c ∈ chunks) (hf : ChunkEq e Γ cfg c.1) (hs : Shape c.1 c.2)
     (hx : c.2 ≠ .none ∨ c.1.nillable = true) {y : Val} (hy : y ∈ itemsN c.1 c.2) {evs : List Ev}
     (hg : itemGen e Γ cfg c.1 ns (chunkFuel c.2 f) y = .ok evs) : ∀ ev ∈ evs, ev ∈ body.flatten := by
   intro ev hev
   obtain ⟨b, hgb, hbm⟩ := mapM_ok_mem _ _ _ hb c hc
   have hin : ev ∈ b := by
-    simp only [genField, genValue_chunk e Γ cfg hf hs hx ns f] at hgb
+    simp only [genField, hf _ hs hx ns f] at hgb
     cases hparts : (itemsN c.1 c.2).mapM (itemGen e Γ cfg c.1 ns (chunkFuel c.2 f)) with
     | error err => simp [hparts, bind, Except.bind, Except.map] at hgb
     | ok parts =>
@@ -194,17 +194,56 @@ theorem genField_textN (e : BEnv) (Γ : Ctx) (cfg : SerCfg) (f : Nat) (ns : Opti
     genField e Γ cfg (f + 1) ns (tv, x) = .ok [Ev.data d] := by
   simp [genField, genValue, hmixed, htext, hwrap, hd, bind, Except.bind, pure, Except.pure]
 
+theorem bindVar_has_ne (P : Params) (var : XmlVar) (y : Val) {k : Str} (h : k ≠ var.name) :
+    ((bindVar P var y).2).has k = P.has k := by
+  have hs : ∀ v, (P.set var.name v).has k = P.has k := by
+    intro v; rw [Params.has_eq_isSome, Params.has_eq_isSome, Params.get_set_ne _ _ h]
+  unfold bindVar
+  split
+  · split
+    · split <;> simp [hs]
+    · split <;> simp [hs]
+  · rfl
+
+/-- `bind_var` meets every non-list var unbound: it is met once, and the names are distinct -/
+theorem FreshOK_of {vars : List XmlVar} (hnd : (vars.map (·.name)).Nodup) :
+    ∀ (E : List (XmlVar × Val)) (asg : List Nat) (P : Params), (∀ en ∈ E, en.1 ∈ vars) →
+    AssignedOK asg E →
+    (∀ v ∈ vars, v.listElement = false → v.index ∉ asg → P.has v.name = false) → FreshOK P E := by
+  intro E
+  induction E with
+  | nil => intros; trivial
+  | cons en r ih =>
+    intro asg P hmem hasg hinv
+    obtain ⟨var, y⟩ := en
+    have hv : var ∈ vars := hmem (var, y) (by simp)
+    by_cases hl : var.listElement = true
+    · simp only [AssignedOK, hl, if_true] at hasg
+      refine ⟨Or.inl hl, ih asg _ (fun en he => hmem en (by simp [he])) hasg ?_⟩
+      intro v hvv hvl hva
+      by_cases hn : v.name = var.name
+      · have := eq_of_nodup_name hnd hvv hv hn; subst this; rw [hl] at hvl; cases hvl
+      · rw [bindVar_has_ne P var y hn]; exact hinv v hvv hvl hva
+    · have hl' : var.listElement = false := by simpa using hl
+      simp only [AssignedOK, hl', Bool.false_eq_true, if_false] at hasg
+      refine ⟨Or.inr (Or.inr (hinv var hv hl' hasg.1)),
+        ih (var.index :: asg) _ (fun en he => hmem en (by simp [he])) hasg.2 ?_⟩
+      intro v hvv hvl hva
+      by_cases hn : v.name = var.name
+      · have := eq_of_nodup_name hnd hvv hv hn; subst this; simp at hva
+      · rw [bindVar_has_ne P var y hn]; exact hinv v hvv hvl (fun h => hva (by simp [h]))
+
 /-- the induction step -/
 theorem main_stepN (ft : Feat) (e : BEnv) (Γ : Ctx) (cfg : SerCfg) (pcfg : ParserConfig) (M : NsMap)
     (hΓ : ctxOK ft Γ = true) (n : Nat) (IH : MainStmtN ft e Γ cfg pcfg M n) :
     MainStmtN ft e Γ cfg pcfg M (n + 1) := by
-  intro v c pnsG pnsP oq q fuel mg mp nl xt hmg hmp hdq hq hns hval hfuel
+  intro v c pnsP oq q fuel mp xt hmp hq hval hfuel
   cases v with
   | obj cls fields =>
     obtain ⟨ci, hfind, hmf⟩ : ∃ ci, Γ.find c = some ci ∧ ci.metaFor pnsP = some mp := by
       simpa [metaOf, Option.bind_eq_some_iff] using hmp
     simp only [FN.valObjN, hfind, hmf, Bool.and_eq_true, decide_eq_true_eq, List.all_eq_true] at hval
-    obtain ⟨⟨hcls, hxtok⟩, ⟨⟨hnames, hxtmap⟩, hattrs⟩, hbody⟩ := hval
+    obtain ⟨⟨hcls, hxtok⟩, ⟨hnames, hattrs⟩, hbody⟩ := hval
     subst hcls
     obtain ⟨MF, _⟩ := ctx_metaFactsN hΓ hfind hmf
     obtain ⟨hAnames, hEnames, hAE⟩ := nodup_append_names MF.nameNodup
@@ -234,33 +273,26 @@ theorem main_stepN (ft : Feat) (e : BEnv) (Γ : Ctx) (cfg : SerCfg) (pcfg : Pars
     have hxtI : ∀ t, xt = some t → ft.inherit = true ∧ typeNameOK e t = true := by
       intro t ht
       simpa [ht] using hxtok
-    have hxtAny : ∀ kv ∈ typeAttr M xt, mp.findAttribute kv.1 = none ∧ mp.findAnyAttributes kv.1 = none ∧
-        targetUri kv.1 = some xsiNs := by
+    have hxtAny : ∀ kv ∈ typeAttr M xt, mp.findAttribute kv.1 = none ∧ (kv.1 = xsiType ∨ kv.1 = xsiNil) := by
       intro kv hkv
       rw [typeAttr_keys kv hkv]
       cases hx : xt with
       | none => simp [hx, typeAttr] at hkv
-      | some t =>
-        have hany : mp.anyAttributes = [] := by simpa [hx] using hxtmap
-        exact ⟨MF.noTypeAttr (hxtI t hx).1, by simp [XmlMeta.findAnyAttributes, hany, findByNamespace],
-          by decide⟩
-    have hBindA : ∀ nil, (nil = true → mp.anyAttributes = []) →
+      | some t => exact ⟨MF.noTypeAttr (hxtI t hx).1, Or.inl rfl⟩
+    have hBindA : ∀ nil,
         bindAttrs e pcfg mp (attrPairsT cfg M mp.attributeVars fields xt ++ nilAttr nil) M =
           .ok (attrParamsN cfg mp.attributeVars fields, 0) := by
-      intro nil hany
+      intro nil
       have := bindAttrs_NX pcfg cfg mp fields M (typeAttr M xt ++ nilAttr nil) hAF hAnames (by
         intro kv hkv
         rcases List.mem_append.1 hkv with h | h
         · exact hxtAny kv h
         · rw [nilAttr_keys kv h]
-          cases nil with
-          | false => simp [nilAttr] at h
-          | true =>
-            exact ⟨MF.noNilAttr, by simp [XmlMeta.findAnyAttributes, hany rfl, findByNamespace], by decide⟩)
+          exact ⟨MF.noNilAttr, Or.inr rfl⟩)
       simpa [attrPairsT, List.append_assoc] using this
     -- under the hypothesis on the prefix map the parser reads the `xsi:type` back
     have hXT : ∀ (X : List Ev) (b : Bool),
-        TypesGood e M ([Ev.start q] ++ (attrEvsT cfg mp.attributeVars fields xt ++ nilEvs (nl || mp.nillable)) ++
+        TypesGood e M ([Ev.start q] ++ (attrEvsT cfg mp.attributeVars fields xt ++ nilEvs mp.nillable) ++
           X ++ [Ev.end q]) →
         xsiTypeOf e (attrPairsT cfg M mp.attributeVars fields xt ++ nilAttr b) M = .ok xt := by
       intro X b hgood
@@ -279,7 +311,7 @@ theorem main_stepN (ft : Feat) (e : BEnv) (Γ : Ctx) (cfg : SerCfg) (pcfg : Pars
           | nil => exact absurd rfl (typeNameOK_ne_nil hok)
           | cons _ _ => rfl
         have hmem : Ev.attr xsiType (.prim (.qname t)) ∈ [Ev.start q] ++
-            (attrEvsT cfg mp.attributeVars fields xt ++ nilEvs (nl || mp.nillable)) ++ X ++ [Ev.end q] := by
+            (attrEvsT cfg mp.attributeVars fields xt ++ nilEvs mp.nillable) ++ X ++ [Ev.end q] := by
           simp [attrEvsT, typeEvs, hx, hne]
         have := hgood t hmem hok
         have hfind : (attrPairsT cfg M mp.attributeVars fields (some t) ++ nilAttr b).find?
@@ -291,53 +323,35 @@ theorem main_stepN (ft : Feat) (e : BEnv) (Γ : Ctx) (cfg : SerCfg) (pcfg : Pars
         simp only [xsiTypeOf, hfind] at this ⊢
         simpa using this
     have hXT0 : ∀ (X : List Ev),
-        TypesGood e M ([Ev.start q] ++ (attrEvsT cfg mp.attributeVars fields xt ++ nilEvs (nl || mp.nillable)) ++
+        TypesGood e M ([Ev.start q] ++ (attrEvsT cfg mp.attributeVars fields xt ++ nilEvs mp.nillable) ++
           X ++ [Ev.end q]) →
         xsiTypeOf e (attrPairsT cfg M mp.attributeVars fields xt) M = .ok xt := by
       intro X hgood
       simpa [nilAttr] using hXT X false hgood
     -- the generator up to the element content
-    have hnilG : mg.nillable = mp.nillable := by
-      show (dropQ mg).nillable = (dropQ mp).nillable
-      rw [hdq]
-    have hGA : nextAttribute cfg mg fields (nl || mg.nillable) xt =
-        .ok (attrEvsT cfg mp.attributeVars fields xt ++ nilEvs (nl || mp.nillable)) := by
-      rw [← nextAttribute_dropQ, hdq, nextAttribute_dropQ, hnilG]
-      exact nextAttribute_N cfg mp fields _ xt hAF
-    have hNV : nextValue mg fields = nextValue mp fields := by
-      rw [← nextValue_dropQ, hdq, nextValue_dropQ]
-    rw [genObj_unfoldN e Γ cfg f cls fields pnsG oq mg nl hmg xt, hq, hGA, hNV,
-      treeNN_obj Γ cfg M n pnsP nl xt q cls fields hmp]
+    have hGA : nextAttribute cfg mp fields (false || mp.nillable) xt =
+        .ok (attrEvsT cfg mp.attributeVars fields xt ++ nilEvs mp.nillable) :=
+      nextAttribute_N cfg mp fields _ xt hAF
+    rw [genObj_unfoldN e Γ cfg f cls fields pnsP oq mp false hmp xt, hq, hGA,
+      treeNN_obj Γ cfg M n pnsP xt q cls fields hmp]
     have hfactoryA : ∀ (P : Params), (∀ var ∈ mp.attributeVars,
           P.get var.name = (attrParamOf cfg fields var).map (·.2)) →
         ∀ fi ∈ ci.fields, ∀ var ∈ mp.attributeVars, var.name = fi.name → FieldOK P fields fi :=
       fun P hP fi hfi var hv hname =>
         attr_field_okN cfg (MF.attrs var hv) (hattrs var hv) MF.fieldNodup hfi hname (hP var hv)
     have hclazz : mp.clazz = cls := by rw [MF.clazz]; exact find_id hfind
-    -- without content the element may be `xsi:nil`: then the class is nillable and has no map
-    have hneed : needContent nl mp = false → (nl || mp.nillable) = true →
-        mp.nillable = true ∧ mp.anyAttributes = [] := by
-      intro hn hN
-      simp only [needContent, Bool.or_eq_false_iff, Bool.and_eq_false_iff, Bool.not_eq_false',
-        Bool.not_eq_eq_eq_not, Bool.not_true, Bool.or_eq_true] at hn hN
-      obtain ⟨h1, h2⟩ := hn
-      constructor
-      · rcases hN with h | h
-        · rcases h1 with h1 | h1
-          · rw [h] at h1; cases h1
-          · exact h1
-        · exact h
-      · rcases h2 with h2 | h2
-        · rcases hN with h | h
-          · rw [h] at h2; simp at h2
-          · rw [h] at h2; simp at h2
-        · simpa using h2
     have hPA := attrParamsN_get cfg fields mp.attributeVars hAnames
     cases htext : mp.text with
     | some tv =>
       dsimp only
-      simp only [htext, Bool.and_eq_true] at hbody
-      obtain ⟨hTX, hcontent⟩ := hbody
+      simp only [htext] at hbody
+      have hTX := hbody
+      have hW0 : mp.wildcards = [] := by
+        rcases MF.wild with h | ⟨wv, _, hok⟩
+        · exact h
+        · exfalso
+          simp only [wildVarOK, Bool.and_eq_true, Option.isNone_iff_eq_none] at hok
+          rw [hok.1.2] at htext; cases htext
       obtain ⟨hEV, hTV⟩ : mp.elementVars = [tv] ∧ FN.textVarOK ft ci tv = true := by
         simpa [htext] using MF.body
       simp only [FN.textVarOK, FN.varBase, Bool.and_eq_true, Bool.not_eq_true',
@@ -385,7 +399,7 @@ theorem main_stepN (ft : Feat) (e : BEnv) (Γ : Ctx) (cfg : SerCfg) (pcfg : Pars
               hAkeys false
           have hBindA0 : bindAttrs e pcfg mp (attrPairsT cfg M mp.attributeVars fields xt) M =
               .ok (attrParamsN cfg mp.attributeVars fields, 0) := by
-            simpa [nilAttr] using hBindA false (fun h => by cases h)
+            simpa [nilAttr] using hBindA false
           have hF : classFactory Γ mp.clazz (attrParamsN cfg mp.attributeVars fields) = .ok (.obj cls fields) := by
             rw [hclazz]
             apply classFactory_N Γ hfind fields _ hnames MF.fieldNodup
@@ -398,7 +412,7 @@ theorem main_stepN (ft : Feat) (e : BEnv) (Γ : Ctx) (cfg : SerCfg) (pcfg : Pars
               rw [hdef] at hd'
               exact Or.inr ⟨by rw [hi', hinit], by rw [← hname, hlook, defaultAgrees_val hd']⟩
           obtain ⟨f', rfl⟩ : ∃ f', f = f' + 1 := ⟨f - 1, by omega⟩
-          have hgen := genField_textN e Γ cfg f' (targetUri q) hmixed hisText hwrap
+          have hgen := genField_textN e Γ cfg f' (targetUri mp.qname) hmixed hisText hwrap
             (encodePrimitive_prim hpt')
           have hT : ∃ bt, bindText e pcfg mp (xsiNilOf (attrPairsT cfg M mp.attributeVars fields xt)) M
               (bindEntries (attrParamsN cfg mp.attributeVars fields) []) (optText (serPrim p)) =
@@ -411,13 +425,13 @@ theorem main_stepN (ft : Feat) (e : BEnv) (Γ : Ctx) (cfg : SerCfg) (pcfg : Pars
                 bind, Except.bind, pure, Except.pure]⟩
           obtain ⟨bt, hT⟩ := hT
           have hparse := parseNode_element_N e Γ pcfg mp q _ M _ [] [] {} _ _ bt (.obj cls fields)
-            MF.choices MF.wild (fun h => by rw [hxnA] at h; cases h) hK (fun _ h => by cases h)
-            hWs0 hBindA0 hT hF
+            MF.choices (Or.inl hW0) (fun h => by rw [hxnA] at h; cases h) hK (fun _ h => by cases h)
+            hWs0 trivial hBindA0 hT hF
           have hsubw := SubW_elem_dataN (M := M) (isDt := isDatatype Γ) q
-            (attrEvsT cfg mp.attributeVars fields xt ++ nilEvs (nl || mp.nillable))
-            (attrPairsT cfg M mp.attributeVars fields xt) (nl || mp.nillable) (.prim (.str (serPrim p)))
+            (attrEvsT cfg mp.attributeVars fields xt ++ nilEvs mp.nillable)
+            (attrPairsT cfg M mp.attributeVars fields xt) mp.nillable (.prim (.str (serPrim p)))
             (some (serPrim p)) rfl (hAW _) hAkeys
-          refine ⟨[Ev.start q] ++ (attrEvsT cfg mp.attributeVars fields xt ++ nilEvs (nl || mp.nillable)) ++
+          refine ⟨[Ev.start q] ++ (attrEvsT cfg mp.attributeVars fields xt ++ nilEvs mp.nillable) ++
               [Ev.data (.prim (.str (serPrim p)))] ++ [Ev.end q],
             attrPairsT cfg M mp.attributeVars fields xt, optText (serPrim p), [], ?_, ?_, ?_, ?_,
             Or.inl hxnA, fun hgood => ⟨hXT0 _ hgood, ?_⟩⟩
@@ -467,7 +481,7 @@ theorem main_stepN (ft : Feat) (e : BEnv) (Γ : Ctx) (cfg : SerCfg) (pcfg : Pars
             hAkeys false
         have hBindA0 : bindAttrs e pcfg mp (attrPairsT cfg M mp.attributeVars fields xt) M =
             .ok (attrParamsN cfg mp.attributeVars fields, 0) := by
-          simpa [nilAttr] using hBindA false (fun h => by cases h)
+          simpa [nilAttr] using hBindA false
         -- the typed text value
         unfold FN.textValOK at hTX
         rw [Bool.and_eq_true] at hTX
@@ -482,9 +496,9 @@ theorem main_stepN (ft : Feat) (e : BEnv) (Γ : Ctx) (cfg : SerCfg) (pcfg : Pars
           · -- a token list
             simp only [htok, if_true, Bool.and_eq_true, Bool.or_eq_true, Bool.not_eq_true',
               decide_eq_true_eq] at hTX hkind
-            obtain ⟨ys, hlook, hys⟩ := toks_of hTX.1
+            obtain ⟨ys, hlook, hys⟩ := toks_of hTX
             obtain ⟨f', rfl⟩ : ∃ f', f = f' + 1 := ⟨f - 1, by omega⟩
-            have hgen := genField_textN e Γ cfg f' (targetUri q) hmixed hisText hwrap
+            have hgen := genField_textN e Γ cfg f' (targetUri mp.qname) hmixed hisText hwrap
               (encodePrimitive_toks hys)
             have hdef : f0.default = some (.list []) := by
               obtain ⟨_, _, hd⟩ := field_of_var hfa MF.fieldNodup (List.mem_of_find?_eq_some hf0)
@@ -493,34 +507,45 @@ theorem main_stepN (ft : Feat) (e : BEnv) (Γ : Ctx) (cfg : SerCfg) (pcfg : Pars
               exact defaultAgrees_list hd
             cases ys with
             | nil =>
-              -- no character data; `xsi:nil` is excluded by `textValOK`
-              have hN : (nl || mp.nillable) = false := by
-                rcases hTX.2 with h | h
-                · exact h
-                · simp [hlook, Val.truthy] at h
-              have hT : bindText e pcfg mp (xsiNilOf (attrPairsT cfg M mp.attributeVars fields xt)) M
+              -- no character data: `xsi:nil` if the class is nillable; the parser leaves the token
+              -- list to the field default
+              have hxn := xsiNilOf_append (attrPairsT cfg M mp.attributeVars fields xt)
+                hAkeys mp.nillable
+              have hT : bindText e pcfg mp
+                  (xsiNilOf (attrPairsT cfg M mp.attributeVars fields xt ++ nilAttr mp.nillable)) M
                   (bindEntries (attrParamsN cfg mp.attributeVars fields) []) none =
                   .ok (false, attrParamsN cfg mp.attributeVars fields, 0) := by
-                simp [bindText, htext, bindEntries, hxnA]
+                rw [hxn]
+                cases hN : mp.nillable <;> simp [bindText, htext, bindEntries, htok]
               have hF := hFgen (attrParamsN cfg mp.attributeVars fields) hPA
                 (Or.inr ⟨hPAtv, by rw [hlook]; exact hdef⟩)
-              have hparse := parseNode_element_N e Γ pcfg mp q (attrPairsT cfg M mp.attributeVars fields xt) M
-                none [] [] {} _ _ false (.obj cls fields) MF.choices MF.wild
-                (fun h => by rw [hxnA] at h; cases h) hK (fun _ h => by cases h) hWs0 hBindA0 hT hF
+              have hparse := parseNode_element_N e Γ pcfg mp q
+                (attrPairsT cfg M mp.attributeVars fields xt ++ nilAttr mp.nillable) M
+                none [] [] {} _ _ false (.obj cls fields) MF.choices (Or.inl hW0)
+                (fun h => by
+                  rw [hxn] at h
+                  cases hN : mp.nillable with
+                  | false => simp [hN] at h
+                  | true => rfl)
+                hK (fun _ h => by cases h) hWs0 trivial (hBindA _) hT hF
               have hsubw := SubW_elem_dataN (M := M) (isDt := isDatatype Γ) q
-                (attrEvsT cfg mp.attributeVars fields xt ++ nilEvs (nl || mp.nillable))
-                (attrPairsT cfg M mp.attributeVars fields xt) (nl || mp.nillable) (tokData []) none rfl
+                (attrEvsT cfg mp.attributeVars fields xt ++ nilEvs mp.nillable)
+                (attrPairsT cfg M mp.attributeVars fields xt) mp.nillable (tokData []) none rfl
                 (hAW _) hAkeys
-              refine ⟨[Ev.start q] ++ (attrEvsT cfg mp.attributeVars fields xt ++ nilEvs (nl || mp.nillable)) ++
+              refine ⟨[Ev.start q] ++ (attrEvsT cfg mp.attributeVars fields xt ++ nilEvs mp.nillable) ++
                   [Ev.data (tokData [])] ++ [Ev.end q],
-                attrPairsT cfg M mp.attributeVars fields xt, none, [], ?_, ?_, ?_, ?_,
-                Or.inl hxnA, fun hgood => ⟨hXT0 _ hgood, ?_⟩⟩
+                attrPairsT cfg M mp.attributeVars fields xt ++ nilAttr mp.nillable, none, [], ?_, ?_, ?_, ?_,
+                ?_, fun hgood => ⟨hXT _ _ hgood, ?_⟩⟩
               · simp [hNVe, hlook, emitOfN, hgen, bind, Except.bind, pure, Except.pure]
-              · simp [hlook, textHasData, hN, nilAttr, textTextN, optText, joinTok, tokStrs, List.intercalate]
-              · simpa [hlook, textHasData, hN, nilAttr, textTextN, optText, joinTok, tokStrs,
+              · simp [hlook, textHasData, textTextN, optText, joinTok, tokStrs, List.intercalate]
+              · simpa [hlook, textHasData, textTextN, optText, joinTok, tokStrs,
                   List.intercalate, treeSax, treesSax, dataSax] using hsubw
               · simp [plain, plainList]
-              · intro xtN; simpa [hlook, textHasData, hN, nilAttr, textTextN, optText, joinTok, tokStrs,
+              · rw [hxn]
+                cases hN : mp.nillable with
+                | false => exact Or.inl (by simp)
+                | true => exact Or.inr ⟨by simp, rfl⟩
+              · intro xtN; simpa [hlook, textHasData, textTextN, optText, joinTok, tokStrs,
                   List.intercalate] using hparse xtN
             | cons a l =>
               have hpv := parseVar_toks e pcfg tv.toVarCore M htok hty hys
@@ -536,13 +561,13 @@ theorem main_stepN (ft : Feat) (e : BEnv) (Γ : Ctx) (cfg : SerCfg) (pcfg : Pars
                   exact hPA var hv)
                 (Or.inl (by rw [Params.get_set_self, hlook]))
               have hparse := parseNode_element_N e Γ pcfg mp q (attrPairsT cfg M mp.attributeVars fields xt) M
-                (some (joinTok (a :: l))) [] [] {} _ _ true (.obj cls fields) MF.choices MF.wild
-                (fun h => by rw [hxnA] at h; cases h) hK (fun _ h => by cases h) hWs0 hBindA0 hT hF
+                (some (joinTok (a :: l))) [] [] {} _ _ true (.obj cls fields) MF.choices (Or.inl hW0)
+                (fun h => by rw [hxnA] at h; cases h) hK (fun _ h => by cases h) hWs0 trivial hBindA0 hT hF
               have hsubw := SubW_elem_dataN (M := M) (isDt := isDatatype Γ) q
-                (attrEvsT cfg mp.attributeVars fields xt ++ nilEvs (nl || mp.nillable))
-                (attrPairsT cfg M mp.attributeVars fields xt) (nl || mp.nillable) (tokData (a :: l)) _
+                (attrEvsT cfg mp.attributeVars fields xt ++ nilEvs mp.nillable)
+                (attrPairsT cfg M mp.attributeVars fields xt) mp.nillable (tokData (a :: l)) _
                 (encodeData_toks M hys) (hAW _) hAkeys
-              refine ⟨[Ev.start q] ++ (attrEvsT cfg mp.attributeVars fields xt ++ nilEvs (nl || mp.nillable)) ++
+              refine ⟨[Ev.start q] ++ (attrEvsT cfg mp.attributeVars fields xt ++ nilEvs mp.nillable) ++
                   [Ev.data (tokData (a :: l))] ++ [Ev.end q],
                 attrPairsT cfg M mp.attributeVars fields xt, some (joinTok (a :: l)), [], ?_, ?_, ?_, ?_,
                 Or.inl hxnA, fun hgood => ⟨hXT0 _ hgood, ?_⟩⟩
@@ -558,24 +583,22 @@ theorem main_stepN (ft : Feat) (e : BEnv) (Γ : Ctx) (cfg : SerCfg) (pcfg : Pars
             split at hTX
             · -- the text is `None`
               rename_i hlook
-              have hnc : needContent nl mp = false := by
-                simpa [hlook, textHasData] using hcontent
               simp only [hlook, Bool.or_eq_true] at hTX
               have hxn := xsiNilOf_append (attrPairsT cfg M mp.attributeVars fields xt)
-                hAkeys (nl || mp.nillable)
+                hAkeys mp.nillable
               have hT : bindText e pcfg mp
-                  (xsiNilOf (attrPairsT cfg M mp.attributeVars fields xt ++ nilAttr (nl || mp.nillable))) M
+                  (xsiNilOf (attrPairsT cfg M mp.attributeVars fields xt ++ nilAttr mp.nillable)) M
                   (bindEntries (attrParamsN cfg mp.attributeVars fields) []) none =
-                  .ok ((nl || mp.nillable),
-                    if (nl || mp.nillable) then (attrParamsN cfg mp.attributeVars fields).set tv.name .none
+                  .ok (mp.nillable,
+                    if mp.nillable then (attrParamsN cfg mp.attributeVars fields).set tv.name .none
                     else attrParamsN cfg mp.attributeVars fields, 0) := by
                 rw [hxn]
-                cases hN : (nl || mp.nillable) <;>
-                  simp [bindText, htext, bindEntries, hinit, bind, Except.bind, pure, Except.pure]
+                cases hN : mp.nillable <;>
+                  simp [bindText, htext, bindEntries, hinit, htok', bind, Except.bind, pure, Except.pure]
               have hF : classFactory Γ mp.clazz
-                  (if (nl || mp.nillable) then (attrParamsN cfg mp.attributeVars fields).set tv.name .none
+                  (if mp.nillable then (attrParamsN cfg mp.attributeVars fields).set tv.name .none
                     else attrParamsN cfg mp.attributeVars fields) = .ok (.obj cls fields) := by
-                cases hN : (nl || mp.nillable) with
+                cases hN : mp.nillable with
                 | true =>
                   simp only [if_true]
                   exact hFgen _ (fun var hv => by
@@ -586,37 +609,34 @@ theorem main_stepN (ft : Feat) (e : BEnv) (Γ : Ctx) (cfg : SerCfg) (pcfg : Pars
                   simp only [Bool.false_eq_true, if_false]
                   have hfd : fdNone ci tv.name = true := by
                     rcases hTX with h | h
-                    · simp only [Bool.or_eq_false_iff] at hN
-                      rcases h with h | h
-                      · rw [hN.1] at h; cases h
-                      · rw [hN.2] at h; cases h
+                    · rw [hN] at h; cases h
                     · exact h
                   obtain ⟨f', hf', hdn⟩ := fdNone_iff.1 hfd
                   rw [hf0] at hf'; cases hf'
                   exact hFgen _ hPA (Or.inr ⟨hPAtv, by rw [hlook, hdn]⟩)
               have hparse := parseNode_element_N e Γ pcfg mp q
-                (attrPairsT cfg M mp.attributeVars fields xt ++ nilAttr (nl || mp.nillable)) M none [] [] {} _ _ _
-                (.obj cls fields) MF.choices MF.wild
+                (attrPairsT cfg M mp.attributeVars fields xt ++ nilAttr mp.nillable) M none [] [] {} _ _ _
+                (.obj cls fields) MF.choices (Or.inl hW0)
                 (fun h => by
                   rw [hxn] at h
-                  cases hN : (nl || mp.nillable) with
+                  cases hN : mp.nillable with
                   | false => simp [hN] at h
-                  | true => exact (hneed hnc hN).1)
-                hK (fun _ h => by cases h) hWs0 (hBindA _ (fun hN => (hneed hnc hN).2)) hT hF
+                  | true => rfl)
+                hK (fun _ h => by cases h) hWs0 trivial (hBindA _) hT hF
               have hsubw := SubW_elemN (M := M) (isDt := isDatatype Γ) q
-                (attrEvsT cfg mp.attributeVars fields xt ++ nilEvs (nl || mp.nillable))
-                (attrPairsT cfg M mp.attributeVars fields xt) (nl || mp.nillable) [] []
+                (attrEvsT cfg mp.attributeVars fields xt ++ nilEvs mp.nillable)
+                (attrPairsT cfg M mp.attributeVars fields xt) mp.nillable [] []
                 (hAW _) hAkeys (BodyW_nil M _)
-              refine ⟨[Ev.start q] ++ (attrEvsT cfg mp.attributeVars fields xt ++ nilEvs (nl || mp.nillable)) ++
+              refine ⟨[Ev.start q] ++ (attrEvsT cfg mp.attributeVars fields xt ++ nilEvs mp.nillable) ++
                   [] ++ [Ev.end q],
-                attrPairsT cfg M mp.attributeVars fields xt ++ nilAttr (nl || mp.nillable), none, [], ?_, ?_, ?_,
+                attrPairsT cfg M mp.attributeVars fields xt ++ nilAttr mp.nillable, none, [], ?_, ?_, ?_,
                 ?_, ?_, fun hgood => ⟨hXT _ _ hgood, ?_⟩⟩
               · simp [hNVe, hlook, emitOfN, hnillable, bind, Except.bind, pure, Except.pure]
               · simp [hlook, textHasData, textTextN]
               · simpa [hlook, textHasData, textTextN, treeSax, treesSax] using hsubw
               · simp [plain, plainList]
               · rw [hxn]
-                cases hN : (nl || mp.nillable) with
+                cases hN : mp.nillable with
                 | false => exact Or.inl (by simp)
                 | true => exact Or.inr ⟨by simp, rfl⟩
               · intro xtN; simpa [hlook, textHasData, textTextN] using hparse xtN
@@ -625,7 +645,7 @@ theorem main_stepN (ft : Feat) (e : BEnv) (Γ : Ctx) (cfg : SerCfg) (pcfg : Pars
               simp only [Bool.and_eq_true, Bool.or_eq_true, decide_eq_true_eq] at hTX
               obtain ⟨hpt', hemp⟩ := hTX
               obtain ⟨f', rfl⟩ : ∃ f', f = f' + 1 := ⟨f - 1, by omega⟩
-              have hgen := genField_textN e Γ cfg f' (targetUri q) hmixed hisText hwrap
+              have hgen := genField_textN e Γ cfg f' (targetUri mp.qname) hmixed hisText hwrap
                 (encodePrimitive_prim hpt')
               have hparse : ∀ xtN, parseNode e Γ pcfg
                   (.element mp (attrPairsT cfg M mp.attributeVars fields xt) M false xtN
@@ -646,8 +666,8 @@ theorem main_stepN (ft : Feat) (e : BEnv) (Γ : Ctx) (cfg : SerCfg) (pcfg : Pars
                       rw [hf0] at hf''; cases hf''
                       exact Or.inr ⟨hPAtv, by rw [hlook, hdn, hp]⟩)
                   exact parseNode_element_N e Γ pcfg mp q _ M _ [] [] {} _ _ false (.obj cls fields)
-                    MF.choices MF.wild (fun h => by rw [hxnA] at h; cases h) hK (fun _ h => by cases h)
-                    hWs0 hBindA0 hT hF xtN
+                    MF.choices (Or.inl hW0) (fun h => by rw [hxnA] at h; cases h) hK (fun _ h => by cases h)
+                    hWs0 trivial hBindA0 hT hF xtN
                 · have hpv := parseVar_serPrim e pcfg tv.toVarCore p t M htok' hty hpt'
                   have hT : bindText e pcfg mp (xsiNilOf (attrPairsT cfg M mp.attributeVars fields xt)) M
                       (bindEntries (attrParamsN cfg mp.attributeVars fields) []) (optText (serPrim p)) =
@@ -660,13 +680,13 @@ theorem main_stepN (ft : Feat) (e : BEnv) (Γ : Ctx) (cfg : SerCfg) (pcfg : Pars
                       exact hPA var hv)
                     (Or.inl (by rw [Params.get_set_self, hlook]))
                   exact parseNode_element_N e Γ pcfg mp q _ M _ [] [] {} _ _ true (.obj cls fields)
-                    MF.choices MF.wild (fun h => by rw [hxnA] at h; cases h) hK (fun _ h => by cases h)
-                    hWs0 hBindA0 hT hF xtN
+                    MF.choices (Or.inl hW0) (fun h => by rw [hxnA] at h; cases h) hK (fun _ h => by cases h)
+                    hWs0 trivial hBindA0 hT hF xtN
               have hsubw := SubW_elem_dataN (M := M) (isDt := isDatatype Γ) q
-                (attrEvsT cfg mp.attributeVars fields xt ++ nilEvs (nl || mp.nillable))
-                (attrPairsT cfg M mp.attributeVars fields xt) (nl || mp.nillable) (.prim (.str (serPrim p)))
+                (attrEvsT cfg mp.attributeVars fields xt ++ nilEvs mp.nillable)
+                (attrPairsT cfg M mp.attributeVars fields xt) mp.nillable (.prim (.str (serPrim p)))
                 (some (serPrim p)) rfl (hAW _) hAkeys
-              refine ⟨[Ev.start q] ++ (attrEvsT cfg mp.attributeVars fields xt ++ nilEvs (nl || mp.nillable)) ++
+              refine ⟨[Ev.start q] ++ (attrEvsT cfg mp.attributeVars fields xt ++ nilEvs mp.nillable) ++
                   [Ev.data (.prim (.str (serPrim p)))] ++ [Ev.end q],
                 attrPairsT cfg M mp.attributeVars fields xt, optText (serPrim p), [], ?_, ?_, ?_, ?_,
                 Or.inl hxnA, fun hgood => ⟨hXT0 _ hgood, ?_⟩⟩
@@ -678,37 +698,75 @@ theorem main_stepN (ft : Feat) (e : BEnv) (Γ : Ctx) (cfg : SerCfg) (pcfg : Pars
             · cases hTX
     | none =>
       dsimp only
-      simp only [htext, Bool.and_eq_true, List.all_eq_true] at hbody
-      obtain ⟨hbodyE, hcontent⟩ := hbody
-      have hEall : ∀ var ∈ mp.elementVars, FN.elemVarOK ft Γ mp ci var = true := by
-        simpa [htext] using MF.body
-      have hEF := fun var hv => elemFactsN_of MF hv (hEall var hv)
+      simp only [htext, List.all_eq_true] at hbody
+      have hbodyE := hbody
+      have hEW : ∀ var ∈ mp.elementVars,
+          (ElemFactsN mp var ∧ ElemKindN ft Γ mp var ∧ fieldAgreesN ci var = true ∧
+            (var.nillable = true → ft.nillable = true) ∧ (var.init = true ∨ fixedOK var = true)) ∨
+          (WildFactsN mp var ∧ fieldAgreesN ci var = true) := by
+        intro var hv
+        rcases elemOrWild MF htext hv with h | h
+        · exact Or.inl (elemFactsN_of MF hv h)
+        · exact Or.inr h
+      have hFA : ∀ var ∈ mp.elementVars, fieldAgreesN ci var = true := by
+        intro var hv
+        rcases hEW var hv with h | h
+        · exact h.2.2.1
+        · exact h.2
+      have hCE : ∀ var ∈ mp.elementVars, ChunkEq e Γ cfg var := by
+        intro var hv
+        rcases hEW var hv with h | h
+        · exact chunkEq_elem e Γ cfg h.1
+        · exact chunkEq_wild e Γ cfg h.1.isWild h.1.mixed h.1.tokens h.1.list
+      have hWr : ∀ var ∈ mp.elementVars, ∀ w, var.wrapperQName = some w →
+          mp.wrappers.any (·.1 = w) = true := by
+        intro var hv w hw
+        rcases hEW var hv with h | h
+        · exact h.1.wrapOK w hw
+        · rw [h.1.wrapper] at hw; cases hw
+      have hEK : ∀ var ∈ mp.elementVars, ∀ y ∈ itemsN var (look fields var.name), EntryK mp var y := by
+        intro var hv y hy
+        rcases hEW var hv with h | h
+        · exact Or.inl h.1
+        · obtain ⟨xs, _, hitems, hall⟩ := wild_items h.1 (hbodyE var hv)
+          rw [hitems] at hy
+          obtain ⟨q', t, a, kids, rfl, _⟩ := wildItemOK_any (hall y hy)
+          exact Or.inr ⟨h.1, _, _, _, _, _, rfl⟩
+      have hWild : mp.wildcards = [] ∨
+          ((none : Option Str) = none ∧ ∃ wv, mp.wildcards = [wv] ∧ wv.mixed = false) := by
+        rcases MF.wild with h | ⟨wv, h, hok⟩
+        · exact Or.inl h
+        · exact Or.inr ⟨rfl, wv, h, (wildFactsN_of MF h hok).1.mixed⟩
       have hin : ∀ var ∈ mp.elementVars, var.name ∈ fields.map (·.1) := fun var hv => by
-        obtain ⟨f', hf', _, _⟩ := fieldAgreesN_iff.1 (hEF var hv).2.2.1
+        obtain ⟨f', hf', _, _⟩ := fieldAgreesN_iff.1 (hFA var hv)
         rw [hnames]; exact mem_names_of_find hf'
       obtain ⟨f', rfl⟩ : ∃ f', f = f' + 1 := ⟨f - 1, by omega⟩
       -- per var: generator, writer and parser of its items
       have hB : ∀ var ∈ mp.elementVars,
-          VarBundleG e Γ cfg pcfg M mp ci (targetUri q) (itemRec Γ cfg M n (targetUri mp.qname)) f' var
+          VarBundleG e Γ cfg pcfg M mp ci (targetUri mp.qname) (itemRec Γ cfg M n (targetUri mp.qname)) f' var
             (look fields var.name) := by
         intro var hv
-        obtain ⟨hf, hk, _, _, hinitV⟩ := hEF var hv
         have hsz := size_le_sizeFields (look_mem (hin var hv))
         simp only at hsz
-        cases hk with
-        | prim t hc hp ht hd =>
-          exact (prim_bundle e Γ cfg pcfg M _ _ hf MF.wild hc hp ht hd hinitV _ (hbodyE var hv) f'
-            (by omega)).toG
-        | cls c' m' hc htk ht hd hm hns' =>
-          have hinitC : var.init = true := by
-            rcases hinitV with h | h
-            · exact h
-            · simp [FN.fixedOK, hc] at h
-          exact cls_bundle ft e Γ cfg pcfg M n hΓ IH hf hc htk ht hd hm hns' q hns hv hinitC (hbodyE var hv) f'
-            (by omega)
+        rcases hEW var hv with ⟨hf, hk, _, _, hinitV⟩ | ⟨hwf, _⟩
+        · cases hk with
+          | prim t hc hp ht hd =>
+            exact (prim_bundle e Γ cfg pcfg M _ _ hf (mixedContent_false MF) hc hp ht hd hinitV _
+              (hbodyE var hv) f' (by omega)).toG hf MF.choices
+          | cls c' m' hc htk ht hd hm =>
+            have hinitC : var.init = true := by
+              rcases hinitV with h | h
+              · exact h
+              · simp [FN.fixedOK, hc] at h
+            exact cls_bundle ft e Γ cfg pcfg M n hΓ IH hf MF.choices hc htk ht hd hm hinitC (hbodyE var hv) f'
+              (by omega)
+        · exact wild_bundle e Γ cfg pcfg M _ _ hwf (hbodyE var hv) f' (by omega)
       -- `next_value`
       have hVS : ∀ var ∈ mp.elementVars, VarSeq fields var := fun var hv =>
-        ⟨hin var hv, (hB var hv).shape, items_nones (hEF var hv).2.1 (hbodyE var hv)⟩
+        ⟨hin var hv, (hB var hv).shape, by
+          rcases hEW var hv with h | h
+          · exact items_nones h.2.1 (by simp [VarCore.isWildcard, h.1.isElem]) (hbodyE var hv)
+          · exact items_nones_wild h.1 (hbodyE var hv)⟩
       obtain ⟨R, hNVe, hspec⟩ := nextValue_spec mp fields hVS hEnames MF.seqOK
       have hvalsN : valsN mp fields = R := by simp [valsN, hNVe]
       have hitemOf : ∀ c ∈ R, ∀ y ∈ itemsN c.1 c.2, y ∈ itemsN c.1 (look fields c.1.name) := by
@@ -725,11 +783,11 @@ theorem main_stepN (ft : Feat) (e : BEnv) (Γ : Ctx) (cfg : SerCfg) (pcfg : Pars
         · rw [if_pos ha]; exact Or.inr ⟨rfl, by rw [← harr ha]; exact ha⟩
         · rw [if_neg ha]; exact Or.inl rfl
       -- the generator
-      obtain ⟨body, hbodyEq, hBodyW, hbodyNil⟩ := body_genN e Γ cfg M (targetUri q)
+      obtain ⟨body, hbodyEq, hBodyW, hbodyNil⟩ := body_genN e Γ cfg M (targetUri mp.qname)
         (itemRec Γ cfg M n (targetUri mp.qname)) (m := mp) R f'
         (fun c hc => by
           obtain ⟨hv, hs, hem, harr⟩ := hspec.1 c hc
-          refine ⟨(hEF _ hv).1, hs, hem, fun y hy => ?_⟩
+          refine ⟨hCE _ hv, hs, hem, fun y hy => ?_⟩
           obtain ⟨⟨evs, hg, hsw, _⟩, _⟩ := (hB _ hv).items y (hitemOf c hc y hy) _ (hfuelOf c hc)
           exact ⟨evs, hg, hsw⟩)
       -- emptiness of the content on both sides
@@ -746,15 +804,15 @@ theorem main_stepN (ft : Feat) (e : BEnv) (Γ : Ctx) (cfg : SerCfg) (pcfg : Pars
             exact absurd (treesSax_eq_nil this) (by simp)
           | cons _ _ => rfl
       -- the entries
-      have hentry : ∀ en ∈ R.flatMap chunkEntries, ElemFactsN mp en.1 := by
+      have hentry : ∀ en ∈ R.flatMap chunkEntries, EntryK mp en.1 en.2 := by
         intro en hen
         obtain ⟨hv, hy⟩ := mem_entries hspec hEnames hen
-        exact (hEF _ hv).1
+        exact hEK _ hv _ hy
       -- the parser side of the items, once the prefix map serves the `xsi:type`s of the whole element
       have hitemP : TypesGood e M ([Ev.start q] ++
-            (attrEvsT cfg mp.attributeVars fields xt ++ nilEvs (nl || mp.nillable)) ++ body.flatten ++ [Ev.end q]) →
+            (attrEvsT cfg mp.attributeVars fields xt ++ nilEvs mp.nillable) ++ body.flatten ++ [Ev.end q]) →
           ∀ c ∈ R, ∀ en ∈ chunkEntries c,
-            ItemP e Γ pcfg M mp en.1 en.2 (itemTreeNN M (itemRec Γ cfg M n (targetUri mp.qname)) en.1 en.2) := by
+            ItemK e Γ pcfg M mp en.1 en.2 (itemTreeNN M (itemRec Γ cfg M n (targetUri mp.qname)) en.1 en.2) := by
         intro hgood c hc en hen
         simp only [chunkEntries, List.mem_map] at hen
         obtain ⟨y, hy, rfl⟩ := hen
@@ -763,7 +821,7 @@ theorem main_stepN (ft : Feat) (e : BEnv) (Γ : Ctx) (cfg : SerCfg) (pcfg : Pars
         apply hI
         apply hgood.mono
         intro ev hev
-        have := item_evs_mem_body e Γ cfg (targetUri q) R f' hbodyEq hc (hEF _ hv).1 hs hem hy hg ev hev
+        have := item_evs_mem_body e Γ cfg (targetUri mp.qname) R f' hbodyEq hc (hCE _ hv) hs hem hy hg ev hev
         simp [this]
       have hplainK : plainList M (R.flatMap fun c =>
           chunkTrees M (itemTreeNN M (itemRec Γ cfg M n (targetUri mp.qname)) c.1) c.1 c.2) = true := by
@@ -773,9 +831,18 @@ theorem main_stepN (ft : Feat) (e : BEnv) (Γ : Ctx) (cfg : SerCfg) (pcfg : Pars
         exact (plainList_iff M _).1 (plain_chunkTrees (fun y hy =>
           ((hB _ (hspec.1 c hc).1).items y (hitemOf c hc y hy) _ (Or.inl rfl)).2)) t htc
       -- the parser
-      have hK' := fun hgood => parseKids_chunks e Γ pcfg M MF.choices MF.wild
+      have hAsg := AssignedOK_spec hspec hEnames MF.idxNodup (fun var hv => (hB var hv).short)
+      have hFr : FreshOK (attrParamsN cfg mp.attributeVars fields) (R.flatMap chunkEntries) := by
+        apply FreshOK_of hEnames _ [] _ (fun en hen => (mem_entries hspec hEnames hen).1) hAsg
+        intro v hv _ _
+        rw [Params.has_eq_isSome, attrParamsN_get_none]
+        · rfl
+        · intro hmem
+          obtain ⟨a, ha, han⟩ := List.mem_map.1 hmem
+          exact hAE a ha v hv han
+      have hK' := fun hgood => parseKids_chunks e Γ pcfg M
         (fun en => itemTreeNN M (itemRec Γ cfg M n (targetUri mp.qname)) en.1 en.2) R {}
-        (fun c hc => ⟨(hEF _ (hspec.1 c hc).1).1, fun en hen => hitemP hgood c hc en hen⟩)
+        (fun c hc => ⟨hWr _ (hspec.1 c hc).1, fun en hen => hitemP hgood c hc en hen⟩)
         (AssignedOK_spec hspec hEnames MF.idxNodup (fun var hv => (hB var hv).short))
       have hWs : WsOK (stAfterChunks {} R).wrappers (R.flatMap chunkEntries) := by
         apply WsOK_of_queues
@@ -801,7 +868,7 @@ theorem main_stepN (ft : Feat) (e : BEnv) (Γ : Ctx) (cfg : SerCfg) (pcfg : Pars
             exact hAE w hw en.1 (mem_entries hspec hEnames hen).1 hk.symm
           rw [get_bindEntries, hnone]
           exact hPA w hw
-        · apply elem_field_okN (hEF var hvE).2.2.1 MF.fieldNodup hfi hname _ (hB var hvE).param
+        · apply elem_field_okN (hFA var hvE) MF.fieldNodup hfi hname _ (hB var hvE).param
           rw [get_bindEntries, entries_of_var hspec hEnames hvE, attrParamsN_get_none,
             foldl_accVar]
           intro hmem
@@ -811,75 +878,39 @@ theorem main_stepN (ft : Feat) (e : BEnv) (Γ : Ctx) (cfg : SerCfg) (pcfg : Pars
           (bindEntries (attrParamsN cfg mp.attributeVars fields) (R.flatMap chunkEntries)) none =
           .ok (false, bindEntries (attrParamsN cfg mp.attributeVars fields) (R.flatMap chunkEntries), 0) := by
         intro xn; simp [bindText, htext]
-      -- `xsi:nil` is kept only without content, and then the class is nillable
-      have hnilkept : (R.flatMap fun c =>
-            chunkTrees M (itemTreeNN M (itemRec Γ cfg M n (targetUri mp.qname)) c.1) c.1 c.2) = [] →
-          (nl || mp.nillable) = true → mp.nillable = true ∧ mp.anyAttributes = [] := by
-        intro hk hN
-        simp only [Bool.or_eq_true, Bool.not_eq_true', List.any_eq_true] at hcontent
-        rcases hcontent with h | ⟨var, hv, hem⟩
-        · exact hneed h hN
-        · exfalso
-          have hne := emitsChild_items (hB var hv).shape hem
-          have hsp := hspec.2 var.name
-          rw [find?_name_of_mem hEnames hv] at hsp
-          -- some chunk of `var` has an item, hence a tree
-          cases hfl : (R.filter (fun c => c.1.name = var.name)).flatMap (fun c => itemsN c.1 c.2) with
-          | nil => rw [hfl] at hsp; exact hne hsp.symm
-          | cons y ys =>
-            have hy : y ∈ (R.filter (fun c => c.1.name = var.name)).flatMap (fun c => itemsN c.1 c.2) := by
-              rw [hfl]; simp
-            obtain ⟨c, hc, hyc⟩ := List.mem_flatMap.1 hy
-            have hcR := (List.mem_filter.1 hc).1
-            have htrees : chunkTrees M (itemTreeNN M (itemRec Γ cfg M n (targetUri mp.qname)) c.1) c.1 c.2 ≠ [] := by
-              simp only [chunkTrees]
-              cases c.1.wrapperQName with
-              | some w => simp
-              | none =>
-                simp only [ne_eq, List.map_eq_nil_iff]
-                intro h0; rw [h0] at hyc; cases hyc
-            apply htrees
-            have hsub : ∀ t ∈ chunkTrees M (itemTreeNN M (itemRec Γ cfg M n (targetUri mp.qname)) c.1) c.1 c.2,
-                t ∈ (R.flatMap fun c =>
-                  chunkTrees M (itemTreeNN M (itemRec Γ cfg M n (targetUri mp.qname)) c.1) c.1 c.2) :=
-              fun t ht => List.mem_flatMap.2 ⟨c, hcR, ht⟩
-            rw [hk] at hsub
-            cases hct : chunkTrees M (itemTreeNN M (itemRec Γ cfg M n (targetUri mp.qname)) c.1) c.1 c.2 with
-            | nil => rfl
-            | cons t ts => exact absurd (hsub t (by rw [hct]; simp)) (by simp)
       simp only [kidsN, hvalsN]
       generalize hkids : (R.flatMap fun c =>
           chunkTrees M (itemTreeNN M (itemRec Γ cfg M n (targetUri mp.qname)) c.1) c.1 c.2) = kids
-        at hBodyW hbodyNil hempty hplainK hK' hnilkept
+        at hBodyW hbodyNil hempty hplainK hK'
       have hsubw := SubW_elemN (M := M) (isDt := isDatatype Γ) q
-        (attrEvsT cfg mp.attributeVars fields xt ++ nilEvs (nl || mp.nillable))
-        (attrPairsT cfg M mp.attributeVars fields xt) (nl || mp.nillable) body.flatten _
+        (attrEvsT cfg mp.attributeVars fields xt ++ nilEvs mp.nillable)
+        (attrPairsT cfg M mp.attributeVars fields xt) mp.nillable body.flatten _
         (hAW _) hAkeys hBodyW
       rw [hempty] at hsubw
       cases hke : kids.isEmpty with
       | true =>
         have hk0 : kids = [] := by simpa using hke
         have hxn := xsiNilOf_append (attrPairsT cfg M mp.attributeVars fields xt)
-          hAkeys (nl || mp.nillable)
+          hAkeys mp.nillable
         have hparse := fun hgood => parseNode_element_N e Γ pcfg mp q
-          (attrPairsT cfg M mp.attributeVars fields xt ++ nilAttr (nl || mp.nillable)) M none kids _ _ _ _
-          false (.obj cls fields) MF.choices MF.wild
+          (attrPairsT cfg M mp.attributeVars fields xt ++ nilAttr mp.nillable) M none kids _ _ _ _
+          false (.obj cls fields) MF.choices hWild
           (fun h => by
             rw [hxn] at h
-            cases hN : (nl || mp.nillable) with
+            cases hN : mp.nillable with
             | false => simp [hN] at h
-            | true => exact (hnilkept hk0 hN).1)
-          (hK' hgood) hentry hWs (hBindA _ (fun hN => (hnilkept hk0 hN).2)) (hT _) hF
-        refine ⟨[Ev.start q] ++ (attrEvsT cfg mp.attributeVars fields xt ++ nilEvs (nl || mp.nillable)) ++
+            | true => rfl)
+          (hK' hgood) hentry hWs hFr (hBindA _) (hT _) hF
+        refine ⟨[Ev.start q] ++ (attrEvsT cfg mp.attributeVars fields xt ++ nilEvs mp.nillable) ++
             body.flatten ++ [Ev.end q],
-          attrPairsT cfg M mp.attributeVars fields xt ++ nilAttr (nl || mp.nillable), none, kids, ?_,
+          attrPairsT cfg M mp.attributeVars fields xt ++ nilAttr mp.nillable, none, kids, ?_,
           by simp, ?_, ?_,
           ?_, fun hgood => ⟨hXT _ _ hgood, ?_⟩⟩
         · simp only [hNVe, hbodyEq, bind, Except.bind, pure, Except.pure]
         · simpa [hke, treeSax] using hsubw
         · simp [hke, plain, hplainK]
         · rw [hxn]
-          cases hN : (nl || mp.nillable) with
+          cases hN : mp.nillable with
           | false => exact Or.inl (by simp)
           | true => exact Or.inr ⟨by simp, rfl⟩
         · intro xtN; simpa [hke] using hparse hgood xtN
@@ -889,10 +920,10 @@ theorem main_stepN (ft : Feat) (e : BEnv) (Γ : Ctx) (cfg : SerCfg) (pcfg : Pars
             hAkeys false
         have hparse := fun hgood => parseNode_element_N e Γ pcfg mp q
           (attrPairsT cfg M mp.attributeVars fields xt) M none kids _ _ _ _
-          false (.obj cls fields) MF.choices MF.wild
+          false (.obj cls fields) MF.choices hWild
           (fun h => by rw [hxn] at h; cases h)
-          (hK' hgood) hentry hWs (by simpa [nilAttr] using hBindA false (fun h => by cases h)) (hT _) hF
-        refine ⟨[Ev.start q] ++ (attrEvsT cfg mp.attributeVars fields xt ++ nilEvs (nl || mp.nillable)) ++
+          (hK' hgood) hentry hWs hFr (by simpa [nilAttr] using hBindA false) (hT _) hF
+        refine ⟨[Ev.start q] ++ (attrEvsT cfg mp.attributeVars fields xt ++ nilEvs mp.nillable) ++
             body.flatten ++ [Ev.end q], attrPairsT cfg M mp.attributeVars fields xt, none, kids, ?_,
           by simp, ?_, ?_,
           Or.inl hxn, fun hgood => ⟨hXT0 _ hgood, ?_⟩⟩
@@ -906,7 +937,7 @@ theorem main_stepN (ft : Feat) (e : BEnv) (Γ : Ctx) (cfg : SerCfg) (pcfg : Pars
 theorem main_allN (ft : Feat) (e : BEnv) (Γ : Ctx) (cfg : SerCfg) (pcfg : ParserConfig) (M : NsMap)
     (hΓ : ctxOK ft Γ = true) : ∀ n, MainStmtN ft e Γ cfg pcfg M n
   | 0 => by
-    intro v c pnsG pnsP oq q fuel mg mp nl xt _ _ _ _ _ hval _
+    intro v c pnsP oq q fuel mp xt _ _ hval _
     simp [FN.valObjN] at hval
   | n + 1 => main_stepN ft e Γ cfg pcfg M hΓ n (main_allN ft e Γ cfg pcfg M hΓ n)
 
@@ -932,15 +963,15 @@ theorem roundtrip_FN (ft : Feat) (e : BEnv) (Γ : Ctx) (cfg : SerCfg) (pcfg : Pa
       | some m => exact ⟨m, by simp [metaOf, hf, hmf]⟩
   have hgenEq : generate e Γ cfg (.obj c fields) =
       genObj e Γ cfg (4 * (Val.obj c fields).size + 8) (.obj c fields) none none false none := rfl
-  have key := fun M => main_allN ft e Γ cfg pcfg M hΓ (n + 1) (.obj c fields) c none none none m.qname
-    (4 * (Val.obj c fields).size + 8) m m false none hm hm rfl rfl (nsAgreeN_self ft Γ m) hv (by omega)
+  have key := fun M => main_allN ft e Γ cfg pcfg M hΓ (n + 1) (.obj c fields) c none none m.qname
+    (4 * (Val.obj c fields).size + 8) m none hm rfl hv (by omega)
   obtain ⟨evs, _, _, _, hgen0, _⟩ := key []
   obtain ⟨evs', a, text, kids, hgen, htree, hsub, hplain, _, hP⟩ :=
     key (prefixMap (collectUris evs))
   have hevs : evs' = evs := by rw [hgen0] at hgen; cases hgen; rfl
   subst hevs
   obtain ⟨hxt, hparse⟩ := hP (typesGood_prefixMap e evs')
-  refine ⟨evs', treeNN Γ cfg (prefixMap (collectUris evs')) (n + 1) none false none m.qname (.obj c fields),
+  refine ⟨evs', treeNN Γ cfg (prefixMap (collectUris evs')) (n + 1) none none m.qname (.obj c fields),
     by rw [hgenEq]; exact hgen, ?_, ?_⟩
   · have hfold := hsub.2 {} rfl (fun _ => rfl)
     simp only [eventsTree, eventsSax, hfold, bind, Except.bind, pure, Except.pure, afterW,
